@@ -226,6 +226,27 @@ def execute(plan):
                         if not (e2 <= tol):
                             viol("value", step, "samples of a similar generator do not follow the model for its own phases: |h - model| = %.3g > %.3g" % (e2, tol), kind="sibling")
                             break
+                    if op["n"] % 2 == 0:
+                        # a similar generator of the similar generator: again a Jakes process of its own, with its own phases
+                        g3 = g2.get_similar_fading_generator()
+                        phi3, psi3 = np.array(g3._phi_l, copy=True), np.array(g3._psi_l, copy=True)
+                        g3.generate_more_samples(op["n"])
+                        s3 = g3.get_samples()
+                        if np.shape(s3) != base + (op["n"],):
+                            viol("shape", step, "a second-generation similar generator returned shape %s for a request of %d" % (np.shape(s3), op["n"]))
+                            break
+                        if np.shape(phi3) == np.shape(phi):
+                            e3 = float(np.max(np.abs(np.asarray(s3) - model_samples(phi3, psi3, Fd, Ts, L, 1, op["n"]))))
+                            if not (e3 <= tol):
+                                viol("value", step, "samples of a second-generation similar generator do not follow the model for its own phases: |h - model| = %.3g > %.3g" % (e3, tol), kind="sibling")
+                                break
+                            if phi.size > 1 and (np.array_equal(phi3, phi2) or np.array_equal(phi3, phi)):
+                                viol("phases", step, "a second-generation similar generator shares the phases of an ancestor")
+                                break
+                        if not (np.array_equal(g2._phi_l, phi2) and np.array_equal(g2._psi_l, psi2)):
+                            viol("phases", step, "creating/using a similar generator changed ITS parent's random phases")
+                            break
+                        bump(res["probes"], "second_generation_sibling_used")
                     g2.skip_samples_for_next_generation(op["n"])
                     if np.shape(g2._phi_l) == np.shape(phi) and phi.size > 1 and np.array_equal(g2._phi_l, phi):
                         viol("phases", step, "a similar generator shares this generator's random phases")
